@@ -255,6 +255,7 @@ int main(int argc, char *argv[])
 		}
 	}
 
-	exit(err);
+	/* The exit status only has 8 bits, 256 errors must not look like 0 */
+	exit(err > 255 ? 255 : err);
 }
 
